@@ -302,7 +302,13 @@ fn idata() -> Vec<IData> {
     far.extend_from_slice(&blk[..9000]);
     let cfg9 = DCfg { level: 9, strategy: 0, wbits: 15, mem_level: 8, wrap: Wrap::Zlib };
     let far_z = run_deflate::<Ng>(&cfg9, &far, &DSched::one_shot(), &env, &DExtra::default(), None).expect("reference deflate").out;
+    let early = {
+        let cfg = DCfg { level: 6, strategy: 0, wbits: 15, mem_level: 8, wrap: Wrap::Zlib };
+        let sched = DSched { steps: vec![DStep::Feed { n: 10, room: AMPLE, flush: Z_FULL_FLUSH }], tail_room: AMPLE };
+        run_deflate::<Ng>(&cfg, &plain, &sched, &env, &DExtra::default(), None).expect("reference deflate").out
+    };
     vec![
+        IData { name: "zlib-early-flush", wb: 15, bytes: early },
         IData { name: "zlib-long-far-matches", wb: 15, bytes: far_z },
         IData { name: "zlib", wb: 15, bytes: z },
         IData { name: "gzip+header", wb: 31, bytes: mk(Wrap::Gzip, 9, Some(&gzf)) },
@@ -334,6 +340,57 @@ fn i_suffix_alphabet() -> Vec<MOp> {
 
 const I_TAIL: [MOp; 2] = [MOp::Call { flush: Z_NO_FLUSH, inn: usize::MAX, room: AMPLE }, MOp::GetDict];
 
+/// (prefix ; inflateReset) on one stream, then the suffix on it and on a fresh stream built by `fresh`, compared
+/// call by call. Returns the reset stream (still live) and whether an inflateSync of the prefix succeeded.
+unsafe fn run_reset<'a>(c: &mut Case, ds: &'a IData, prefix: &[MOp], full_suffix: &[MOp], env: &MEnv, raw: bool, fresh: &dyn Fn() -> Result<IMachine<'a>, String>) -> Result<(IMachine<'a>, bool), String> {
+    c.exec();
+    let mut a = IMachine::init::<Rs>(ds.wb, &ds.bytes, strm()).map_err(|r| format!("init {r}"))?;
+    let mut validate: Option<i32> = None;
+    let mut synced = false;
+    for op in prefix {
+        let o = a.step::<Rs>(*op, env);
+        if let (MOp::Validate(v), Z_OK) = (op, o.ret) {
+            validate = Some(*v);
+        }
+        if let (MOp::Sync, Z_OK) = (op, o.ret) {
+            synced = true;
+        }
+    }
+    let r = a.reset::<Rs>(None);
+    if r != Z_OK {
+        a.end::<Rs>();
+        return Err(format!("inflateReset returned {}", rc_name(r)));
+    }
+    c.exec();
+    let mut f = fresh()?;
+    // inflateValidate is a stream parameter that inflateReset keeps (as in zlib)
+    if let Some(v) = validate {
+        f.step::<Rs>(MOp::Validate(v), env);
+    }
+    let mut res = Ok(());
+    for (k, op) in full_suffix.iter().enumerate() {
+        let mut oa = a.step::<Rs>(*op, env);
+        let mut of = f.step::<Rs>(*op, env);
+        if ds.wb < 0 || raw {
+            // the adler field of a raw stream has no meaning
+            oa.adler = 0;
+            of.adler = 0;
+        }
+        res = cmp("reset stream", k, op, &oa, &of);
+        if res.is_err() {
+            break;
+        }
+    }
+    f.end::<Rs>();
+    match res {
+        Ok(()) => Ok((a, synced)),
+        Err(e) => {
+            a.end::<Rs>();
+            Err(format!("{}{e}", if synced { "[after a successful inflateSync] " } else { "" }))
+        }
+    }
+}
+
 fn inflate_copy_and_reset(ctx: &mut Ctx, env: &MEnv) {
     let quick = ctx.quick();
     let sets = idata();
@@ -341,8 +398,15 @@ fn inflate_copy_and_reset(ctx: &mut Ctx, env: &MEnv) {
     let sa = i_suffix_alphabet();
     let mut suffixes: Vec<Vec<MOp>> = vec![];
     sequences(&sa, 2, |s| suffixes.push(s.to_vec()));
+    let mut prefixes: Vec<Vec<MOp>> = vec![];
+    sequences(&pa, if quick { 2 } else { 3 }, |q| prefixes.push(q.to_vec()));
+    // a successful inflateSync (the marker of the full flush lies within its reach) after the header and the first
+    // block were decoded, and (data set zlib-early-flush) before the header was seen
+    prefixes.push(vec![MOp::Call { flush: Z_BLOCK, inn: usize::MAX, room: AMPLE }, MOp::Call { flush: Z_BLOCK, inn: usize::MAX, room: AMPLE }, MOp::Sync]);
+    prefixes.push(vec![MOp::Call { flush: Z_NO_FLUSH, inn: 10, room: 1 }, MOp::Call { flush: Z_BLOCK, inn: usize::MAX, room: AMPLE }, MOp::Sync]);
+    prefixes.push(vec![MOp::Sync, MOp::Call { flush: Z_NO_FLUSH, inn: 60, room: AMPLE }]);
     for ds in &sets {
-        sequences(&pa, if quick { 2 } else { 3 }, |prefix| {
+        for prefix in &prefixes {
             for (si, suffix) in suffixes.iter().enumerate() {
                 for variant in 0..4 {
                     if quick && si % 4 != 0 && variant != si % 4 {
@@ -354,34 +418,35 @@ fn inflate_copy_and_reset(ctx: &mut Ctx, env: &MEnv) {
                         |c| unsafe {
                             let full_suffix: Vec<MOp> = suffix.iter().copied().chain(I_TAIL).collect();
                             if variant == 3 {
-                                c.exec();
-                                let mut a = IMachine::init::<Rs>(ds.wb, &ds.bytes, strm()).map_err(|r| format!("init {r}"))?;
-                                let mut validate: Option<i32> = None;
-                                for op in prefix {
-                                    let o = a.step::<Rs>(*op, env);
-                                    if let (MOp::Validate(v), Z_OK) = (op, o.ret) {
-                                        validate = Some(*v);
+                                // (prefix ; inflateReset) on one stream, the suffix on it and on a fresh stream built by `fresh`
+                                let fresh_same = || IMachine::init::<Rs>(ds.wb, &ds.bytes, strm()).map_err(|r| format!("init {r}"));
+                                let mut a = match run_reset(c, ds, prefix, &full_suffix, env, false, &fresh_same) {
+                                    Ok((a, _)) => a,
+                                    Err(e) if e.starts_with("[after a successful inflateSync]") => {
+                                        // known finding F6: a successful inflateSync switches checksum verification off
+                                        // (or, before the header was seen, switches the stream to raw mode) and inflateReset
+                                        // does not switch it back. Precisely that, and nothing else, is tolerated: the reset
+                                        // stream must then equal a fresh stream with inflateValidate(0) or a fresh raw stream.
+                                        let fresh_nocheck = || {
+                                            let mut f = IMachine::init::<Rs>(ds.wb, &ds.bytes, strm()).map_err(|r| format!("init {r}"))?;
+                                            f.step::<Rs>(MOp::Validate(0), env);
+                                            Ok(f)
+                                        };
+                                        let fresh_raw = || IMachine::init::<Rs>(-15, &ds.bytes, strm()).map_err(|r| format!("init {r}"));
+                                        let alt = match run_reset(c, ds, prefix, &full_suffix, env, false, &fresh_nocheck) {
+                                            Ok(x) => Ok(x),
+                                            Err(e1) => run_reset(c, ds, prefix, &full_suffix, env, true, &fresh_raw).map_err(|e2| format!("vs fresh+inflateValidate(0): {e1} ; vs fresh raw: {e2}")),
+                                        };
+                                        match alt {
+                                            Ok((a, _)) => {
+                                                c.soft_violation(format!("inflateReset after a successful inflateSync does not restore checksum verification / the wrapper mode that inflateSync switched off, so the reset stream differs from a fresh one (zlib behaves the same): {e}"));
+                                                a
+                                            }
+                                            Err(e3) => return Err(format!("{e} ;; {e3}")),
+                                        }
                                     }
-                                }
-                                let r = a.reset::<Rs>(None);
-                                if r != Z_OK {
-                                    return Err(format!("inflateReset returned {}", rc_name(r)));
-                                }
-                                c.exec();
-                                let mut f = IMachine::init::<Rs>(ds.wb, &ds.bytes, strm()).map_err(|r| format!("init {r}"))?;
-                                // inflateValidate is a stream parameter that inflateReset keeps (as in zlib)
-                                if let Some(v) = validate {
-                                    f.step::<Rs>(MOp::Validate(v), env);
-                                }
-                                for (k, op) in full_suffix.iter().enumerate() {
-                                    let mut oa = a.step::<Rs>(*op, env);
-                                    let mut of = f.step::<Rs>(*op, env);
-                                    if ds.wb < 0 {
-                                        oa.adler = 0;
-                                        of.adler = 0;
-                                    }
-                                    cmp("reset stream", k, op, &oa, &of)?;
-                                }
+                                    Err(e) => return Err(e),
+                                };
                                 // inflateReset2 to another mode equals a fresh stream in that mode
                                 let r = a.reset::<Rs>(Some(-15));
                                 let mut g = IMachine::init::<Rs>(-15, &ds.bytes, strm()).map_err(|r| format!("init {r}"))?;
@@ -397,7 +462,6 @@ fn inflate_copy_and_reset(ctx: &mut Ctx, env: &MEnv) {
                                     cmp("stream after inflateReset2(-15)", k, op, &oa, &og)?;
                                 }
                                 a.end::<Rs>();
-                                f.end::<Rs>();
                                 g.end::<Rs>();
                                 c.outcome(hash_bytes(&a.out));
                                 c.validated();
@@ -463,7 +527,7 @@ fn inflate_copy_and_reset(ctx: &mut Ctx, env: &MEnv) {
                     );
                 }
             }
-        });
+        }
     }
 }
 
